@@ -9,7 +9,19 @@ SCRATCH = '/tmp/vx-kani'
 
 
 def run(k, tier='quick', pid=None):
-    """k: {name, file, harness_prefix, bound_note}"""
+    """k: {name, file, harness_prefix, bound_note[, thorough_prefix, thorough_expect_harnesses, thorough_bound_note]}"""
+    if tier == 'thorough' and k.get('thorough_prefix') and not k.get('_is_thorough_part'):
+        a = run(dict(k, _is_thorough_part=True), tier='quick', pid=pid)
+        if a['status'] != 'ok':
+            return a
+        b = run(dict(k, _is_thorough_part=True, harness_prefix=k['thorough_prefix'], expect_harnesses=k.get('thorough_expect_harnesses'),
+                     bound_note=k.get('thorough_bound_note', '')), tier='quick', pid=pid)
+        b['harnesses'] = a['harnesses'] + b['harnesses']
+        b['checks'] += a['checks']
+        b['samples'] = a['samples'] + b['samples']
+        b['bound'] = a['bound'] + ' | thorough: ' + b['bound']
+        b['wall_s'] = round(a.get('wall_s', 0) + b.get('wall_s', 0), 1)
+        return b
     t0 = time.time()
     src = os.path.join(VERIF, 'kani', k['file'])
     lock = open('/tmp/vx-kani.lock', 'w')
